@@ -26,6 +26,7 @@ HEADER_SNIPPET = ("arrayIndexOutOfBounds", "error", "static int hdr{n}(void) {{ 
 
 def gen_project(seed, nfiles=None, with_header=None, with_inline=None, severities=True):
     rnd = random.Random(seed)
+    rnd2 = random.Random(seed * 7919 + 13)
     nfiles = nfiles or rnd.choice([2, 3, 3, 4, 5])
     with_header = rnd.random() < 0.6 if with_header is None else with_header
     with_inline = rnd.random() < 0.7 if with_inline is None else with_inline
@@ -39,7 +40,15 @@ def gen_project(seed, nfiles=None, with_header=None, with_inline=None, severitie
         line = 3
         nh = rnd.choice([1, 1, 2])
         for i in range(nh):
-            if rnd.random() < 0.4:
+            plain = rnd.random() < 0.4
+            # (own random stream so that the projects of earlier seeds keep their shape) a begin/end block instead of a
+            # plain inline suppression: the entry carries a line range, which no list copy or pipe frame may lose
+            block = rnd2.random() < 0.35
+            if block:
+                h += "// cppcheck-suppress-begin arrayIndexOutOfBounds\n"
+                supprs.append({"id": "arrayIndexOutOfBounds", "file": "h.h", "line": line, "inline": True, "glob": False, "type": "block"})
+                line += 1
+            elif plain:
                 h += "// cppcheck-suppress arrayIndexOutOfBounds\n"
                 line += 1
                 hdr_lines.append(("inline", line))
@@ -47,6 +56,9 @@ def gen_project(seed, nfiles=None, with_header=None, with_inline=None, severitie
             h += HEADER_SNIPPET[2].format(n=i)
             located.append(("h.h", line, HEADER_SNIPPET[0], HEADER_SNIPPET[1]))
             line += 1
+            if block:
+                h += "// cppcheck-suppress-end arrayIndexOutOfBounds\n"
+                line += 1
         h += "#endif\n"
         files["h.h"] = h
     n = 0
